@@ -28,6 +28,7 @@ type rtCfg struct {
 	Busy       int
 	Lost       int
 	Inbound    int
+	Junk       int // datagrams that are no frames at all, sent between the indications
 	Reader     string
 	CloseEarly bool
 	Sticky     int
@@ -94,7 +95,12 @@ func drawRtCfg(e *Env) rtCfg {
 		c.Busy = e.Choose("cfg.busy4", 4)
 		c.WriteErr = []int{0, 0, 100, 300}[e.Choose("cfg.werr", 4)]
 		c.Inbound = e.Choose("cfg.inbound", 12)
+		c.Junk = e.Choose("cfg.junk", 4)
 		c.CloseEarly = e.Choose("cfg.closeearly", 4) == 0
+		if e.Choose("cfg.starve14", 4) == 0 {
+			c.Starve = []int{100, 300, 700}[e.Choose("cfg.starvep", 3)]
+			c.StarveMax = e.PickDur("cfg.starvemax", time.Millisecond, 20*time.Millisecond, 100*time.Millisecond)
+		}
 		if shape == 9 {
 			c.Senders, c.SendsEach = 1+e.Choose("cfg.senders4", 4), 300/4
 			c.MaxSteps = 150000
@@ -105,6 +111,7 @@ func drawRtCfg(e *Env) rtCfg {
 			c.StallMax = e.PickDur("cfg.stallmax", time.Millisecond, 10*time.Millisecond)
 		}
 		c.Inbound = 2 + e.Choose("cfg.inbound64", 63)
+		c.Junk = e.Choose("cfg.junk17", 6)
 		c.Senders = e.Choose("cfg.senders2", 2)
 		c.Busy, c.Lost = 0, 0
 		if e.Choose("cfg.starve", 3) == 0 {
@@ -238,7 +245,7 @@ func runRouter(e *Env) {
 			r.sendersLeft--
 		})
 	}
-	if c.Busy+c.Lost+c.Inbound > 0 {
+	if c.Busy+c.Lost+c.Inbound+c.Junk > 0 {
 		r.stimLeft++
 		s.Spawn("peer", func() { r.peerActions(); r.stimLeft-- })
 	}
@@ -249,8 +256,9 @@ func runRouter(e *Env) {
 		})
 	}
 	// wait for the workload
-	lostGap := time.Duration(70*(c.Senders+1))*(c.P+time.Millisecond) + 500*time.Millisecond // see peerActions
-	deadline := s.Now() + time.Duration(c.Senders*c.SendsEach+10)*(c.P+60*time.Millisecond) + time.Duration(c.Busy+c.Lost+c.Inbound)*time.Second + time.Duration(c.Lost)*lostGap
+	per := c.P + time.Millisecond + c.SlowMax + c.StarveMax               // what one transmission may take: pause, slow write, an unlock goroutine that starts late
+	lostGap := time.Duration(70*(c.Senders+1))*per + 500*time.Millisecond // see peerActions
+	deadline := s.Now() + time.Duration(c.Senders*c.SendsEach+10)*(per+60*time.Millisecond) + time.Duration(c.Busy+c.Lost+c.Inbound+c.Junk)*time.Second + time.Duration(c.Lost)*lostGap
 	for s.Now() < deadline {
 		if r.sendersLeft == 0 && r.stimLeft == 0 {
 			break
@@ -260,7 +268,7 @@ func runRouter(e *Env) {
 	r.drain = true
 	// (the peer stops at its next action once drain is set; nothing may arrive after the settle point)
 	e.WaitDone("peer", lostGap+time.Second, func() bool { return r.stimLeft == 0 })
-	s.SleepFor(2*time.Second + time.Duration(c.Retain+65)*(c.P+time.Millisecond+c.SlowMax)) // long enough for any resend to finish
+	s.SleepFor(2*time.Second + time.Duration(c.Retain+65)*per + 2*c.StarveMax) // long enough for any resend to finish and any late goroutine to start
 	r.settled = e.Stamp()
 	// the client must still be able to send
 	if !r.closed {
@@ -269,7 +277,17 @@ func runRouter(e *Env) {
 		s.SleepFor(c.P + 60*time.Millisecond)
 		e.Call("final-close", 10*time.Second, r.doClose)
 	}
-	s.SleepFor(c.P + 200*time.Millisecond)
+	// the Sends issued right after Close get the time any pending unlock may legitimately take
+	// (pause, slow write, busy window, a goroutine that starts late)
+	e.WaitDone("post-close-sends", time.Duration(c.Senders+2)*per+200*time.Millisecond+2*c.StarveMax, func() bool {
+		for _, pc := range r.postClose {
+			if !pc.Done {
+				return false
+			}
+		}
+		return true
+	})
+	s.SleepFor(c.P + 200*time.Millisecond + c.StarveMax)
 	closeChan("stop", r.stop)
 	simrt.Yield("end")
 	checkRouter(r)
@@ -305,10 +323,11 @@ func (r *rtRun) doClose() {
 	r.closeRet = r.e.Stamp()
 	// a Send after Close must still return (with an error): it runs in its own task so that a
 	// client that has deadlocked shows up in the oracle instead of wedging the harness
+	id := r.newID()
+	call := &rtSend{ID: id}
+	r.postClose = append(r.postClose, call)
 	r.e.S.Spawn("post-close-send", func() {
-		id := r.newID()
-		call := &rtSend{ID: id, Inv: r.e.Stamp(), Task: r.e.S.CurrentID()}
-		r.postClose = append(r.postClose, call)
+		call.Inv, call.Task = r.e.Stamp(), r.e.S.CurrentID()
 		err := r.rt.Send(rtMessage(id))
 		call.Ret, call.Done, call.OK = r.e.Stamp(), true, err == nil
 	})
@@ -365,6 +384,9 @@ func (r *rtRun) peerActions() {
 	for i := 0; i < c.Inbound; i++ {
 		acts = append(acts, act{"ind"})
 	}
+	for i := 0; i < c.Junk; i++ {
+		acts = append(acts, act{"junk"})
+	}
 	// seeded shuffle
 	for i := len(acts) - 1; i > 0; i-- {
 		j := e.Choose("wl.shuffle", i+1)
@@ -383,11 +405,27 @@ func (r *rtRun) peerActions() {
 			id := r.newID()
 			r.inIDs = append(r.inIDs, id)
 			r.peerSend(mkRoutingInd(idCEMI(0x29, id)))
+		case "junk":
+			// something undecodable right behind whatever came last: it must vanish without a trace
+			var b []byte
+			switch e.Choose("wl.junkkind", 4) {
+			case 0:
+			case 1:
+				b = []byte{6, 0x10, 5}
+			case 2:
+				b = mkRoutingInd(idCEMI(0x29, 0x7777))
+				b = b[:len(b)-1-e.Choose("wl.junkcut", 6)] // a truncated indication
+			case 3:
+				b = []byte{0xff, 0xfe, 0xfd, 0xfc, 0xfb, 0xfa, 0xf9, 0xf8}
+			}
+			e.Fault("junk-datagram")
+			r.peerSend(b)
 		case "busy":
 			if !(c.Storm && e.Choose("flt.stormgap", 2) == 0) {
 				s.SleepFor(time.Duration(e.Choose("flt.busygap", 120)) * time.Millisecond)
 			}
-			wait := []uint16{0, 1, 10, 30, 50, 100, 500}[e.Choose("flt.busywait", 7)]
+			// (values whose low octet alone is below the 50 ms cap: 256, 260, 300, 0x0a00)
+			wait := []uint16{0, 1, 10, 30, 50, 100, 500, 256, 260, 300, 0x0a00, 0xffff}[e.Choose("flt.busywait", 12)]
 			ctl := uint16(e.Choose("flt.busyctl", 2))
 			if ctl == 1 && e.Choose("flt.busyctlv", 2) == 1 {
 				ctl = 0xffff
@@ -397,7 +435,7 @@ func (r *rtRun) peerActions() {
 			r.peerSend(mkRoutingBusy(0, wait, ctl))
 		case "lost":
 			// keep lost indications isolated: the previous resend has certainly finished
-			gap := time.Duration(70*(c.Senders+1))*(c.P+time.Millisecond) + 400*time.Millisecond
+			gap := time.Duration(70*(c.Senders+1))*(c.P+time.Millisecond+c.SlowMax+c.StarveMax) + 400*time.Millisecond
 			if d := lastLost + gap - s.Now(); d > 0 {
 				s.SleepFor(d)
 			}
@@ -585,7 +623,11 @@ func checkRouter(r *rtRun) {
 	for _, ba := range busyRx {
 		b, tL := ba.b, ba.tL
 		if tL != nil && tL.Seq < b.At.Seq {
-			e.HarnessError("lock request / indication pairing broke: request %v before read %v", tL.T, b.At.T)
+			// the receive loop asked for the send lock (which it does only to act on a busy or lost
+			// indication) before the indication this request would belong to had been read: it
+			// acted on one that never arrived (e.g. on the previous one a second time)
+			e.Violate("C13", "flow-control-without-indication", "the receive loop took the send lock at %v as if a busy or lost indication had arrived; the next such indication was only read at %v", tL.T, b.At.T)
+			e.Violate("C14", "flow-control-without-indication", "the receive loop took the send lock at %v as if a busy or lost indication had arrived; the next such indication was only read at %v", tL.T, b.At.T)
 			break
 		}
 		if tL == nil {
